@@ -1,6 +1,7 @@
 package main
 
 import (
+	"regexp"
 	"encoding/json"
 	"flag"
 	"fmt"
@@ -328,12 +329,16 @@ func buildReport(prop, tier string, runs []*FuncRun, results []*Result, cs *Cont
 	}
 	violations := 0
 	knownHits := 0
+	knownSeen := map[string]bool{}
 	os.MkdirAll(filepath.Join(verifDir, "out", "replays"), 0o755)
 	for _, f := range failures {
 		base := obligationBase(f.Ob.Name)
 		if kf, ok := known.match(prop, base); ok {
-			knownHits++
-			fmt.Printf("KNOWN-FINDING: property=%s %s (%s)\n", prop, base, kf)
+			if !knownSeen[base] {
+				knownSeen[base] = true
+				knownHits++
+				fmt.Printf("KNOWN-FINDING: property=%s %s (%s)\n", prop, base, kf)
+			}
 			continue
 		}
 		violations++
@@ -486,11 +491,15 @@ func (r *report) writeEvidence(verifDir string) error {
 }
 
 // obligationBase strips the path suffix: names in KNOWN_FINDINGS.txt are path independent.
+var lineTag = regexp.MustCompile(`@L[0-9]+|@\?`)
+
+// obligationBase: the obligation name without its path id and without source line tags, so that known findings
+// survive unrelated edits.
 func obligationBase(name string) string {
 	if i := strings.LastIndex(name, "/"); i > 0 {
-		return name[:i]
+		name = name[:i]
 	}
-	return name
+	return lineTag.ReplaceAllString(name, "")
 }
 
 type knownFindings struct {
